@@ -6,6 +6,9 @@ CONSTANTS
   Cumulative = @CUMULATIVE@
   FixD1 = @FIXD1@
   MaxSteps = @MAXSTEPS@
+  NoSum = @NOSUM@
+  NoMinMax = @NOMINMAX@
+  OutVariant = "@VARIANT@"
 VIEW View
 INVARIANTS ContractInv
 CHECK_DEADLOCK FALSE
